@@ -76,12 +76,31 @@ def c_magnitude(ex, st, fr, callee, args):
     BI._use("CONTRACT i128_magnitude = floor(log10|i|), 0 for 0 (obligation: C15 Kani harness, all i128)")
     if is_conc(x):
         return IV(len(str(abs(x))) - 1, "u8")
+    key = ("magn", x.get_id())
+    if key in st.divcache:
+        return IV(st.divcache[key][0], "u8")
+    m = T.fresh_int("magn")
+    ax = z3.If(x >= 0, x, -x)
+    cases = []
+    for k in range(39):
+        lo = 0 if k == 0 else 10 ** k
+        cases.append(z3.And(m == k, ax >= lo, ax < 10 ** (k + 1)))
+    st.define((m,), (z3.Or(*cases), z3.And(m >= 0, m <= 38)))
+    st.divcache[key] = (m, x)
+    return IV(m, "u8", ub=6)
+
+
+def c_magnitude_alts(ex, st, fr, callee, args):
+    """same contract, forking over the (few) feasible magnitudes so that the result is concrete on each path"""
+    x = args[0].t
+    BI._use("CONTRACT i128_magnitude = floor(log10|i|), 0 for 0 (obligation: C15 Kani harness, all i128)")
+    if is_conc(x):
+        return IV(len(str(abs(x))) - 1, "u8")
     alts = []
     ax = z3.If(x >= 0, x, -x)
     for m in range(39):
         lo = 0 if m == 0 else 10 ** m
-        hi = 10 ** (m + 1)
-        alts.append((z3.And(ax >= lo, ax < hi), IV(m, "u8")))
+        alts.append((z3.And(ax >= lo, ax < 10 ** (m + 1)), IV(m, "u8")))
     return _Alts(alts)
 
 
@@ -95,6 +114,10 @@ def _mode_of(ex, st, marg, default_mode):
             return marg.fields[0].variant
         return default_mode
     return default_mode
+
+
+def _ckey(name, mode, *vals):
+    return ("contract", name, mode) + tuple(T.term_id(v) for v in vals)
 
 
 def make_rounding_contracts(default_mode):
@@ -112,7 +135,11 @@ def make_rounding_contracts(default_mode):
         if not ex.proves(st, dom, 2000):
             return NotImplemented        # outside the contract's domain: execute the real body
         BI._use("CONTRACT i128_div_rounded = declarative rounding of N/D (obligation: C05 kernel cases, all modes)")
+        key = _ckey("dr", mode, N.t, D.t)
+        if key in st.divcache:
+            return IV(st.divcache[key][0], "i128")
         c = T.fresh_int("dr")
+        st.divcache[key] = (c, N.t, D.t)
         kd = st.known(T.lt(D.t, 0))
         if is_conc(D.t):
             kd = D.t < 0
@@ -122,15 +149,20 @@ def make_rounding_contracts(default_mode):
             Nn, Dn = N.t, D.t
         else:
             Nn, Dn = z3.If(D.t < 0, -T.I(N.t), T.I(N.t)), z3.If(D.t < 0, -T.I(D.t), T.I(D.t))
-        st.define((c,), (rnd_rel(mode, Nn, Dn, c),))
+        st.define((c,), (rnd_rel(mode, Nn, Dn, c),), heavy=not is_conc(Dn))
         return IV(c, "i128")
 
     def _opt_alts(ex, st, rr):
+        # a result of exactly i128::MIN may be returned or rejected; the (unknown but fixed) choice is a function of the call
+        ck = ("minchoice", rr.get_id())
+        if ck not in st.divcache:
+            st.divcache[ck] = (T.fresh_bool("minchoice"), rr)
+        ch = st.divcache[ck][0]
         some = EnumV("Option", 1, (IV(rr, "i128"),))
         none = EnumV("Option", 0)
         return _Alts([(z3.And(rr > I128_MIN, rr <= I128_MAX), some),
                       (z3.Or(rr > I128_MAX, rr < I128_MIN), none),
-                      (rr == I128_MIN, some), (rr == I128_MIN, none)])
+                      (z3.And(rr == I128_MIN, ch), some), (z3.And(rr == I128_MIN, z3.Not(ch)), none)])
 
     def c_shifted_div_rounded(ex, st, fr, callee, args):
         x, k, d, marg = args
@@ -141,7 +173,11 @@ def make_rounding_contracts(default_mode):
         if not ex.proves(st, dom, 2000):
             return NotImplemented
         BI._use("CONTRACT i128_shifted_div_rounded = rounding of x*10^k/d, None iff not representable (obligation C16/K4)")
+        key = _ckey("sdr", mode, x.t, k.t, d.t)
+        if key in st.divcache:
+            return _opt_alts(ex, st, st.divcache[key][0])
         rr = T.fresh_int("sdr")
+        st.divcache[key] = (rr, x.t, d.t)
         kd = st.known(T.lt(d.t, 0))
         if kd is True:
             Nn, Dn = T.neg(x.t) * 10 ** k.t, T.neg(d.t)
@@ -149,7 +185,7 @@ def make_rounding_contracts(default_mode):
             Nn, Dn = T.I(x.t) * 10 ** k.t, d.t
         else:
             Nn, Dn = z3.If(d.t < 0, -T.I(x.t), T.I(x.t)) * 10 ** k.t, z3.If(d.t < 0, -T.I(d.t), T.I(d.t))
-        st.define((rr,), (rnd_rel(mode, Nn, Dn, rr),))
+        st.define((rr,), (rnd_rel(mode, Nn, Dn, rr),), heavy=True)
         return _opt_alts(ex, st, rr)
 
     def c_mul_div_ten_pow_rounded(ex, st, fr, callee, args):
@@ -161,8 +197,12 @@ def make_rounding_contracts(default_mode):
         if not ex.proves(st, dom, 2000):
             return NotImplemented
         BI._use("CONTRACT i128_mul_div_ten_pow_rounded = rounding of x*y/10^p, None iff not representable (obligation C16/K4)")
+        key = _ckey("mdr", mode, x.t, y.t, p.t)
+        if key in st.divcache:
+            return _opt_alts(ex, st, st.divcache[key][0])
         rr = T.fresh_int("mdr")
-        st.define((rr,), (rnd_rel(mode, T.I(x.t) * T.I(y.t), 10 ** p.t, rr),))
+        st.divcache[key] = (rr, x.t, y.t)
+        st.define((rr,), (rnd_rel(mode, T.I(x.t) * T.I(y.t), 10 ** p.t, rr),), heavy=True)
         return _opt_alts(ex, st, rr)
 
     return {"i128_div_rounded": c_div_rounded, "i128_shifted_div_rounded": c_shifted_div_rounded,
@@ -195,14 +235,20 @@ def make_cdr_contract(default_mode):
         if n.t + vq.t > 36 + dp.t or n.t > 38:
             return NotImplemented
         BI._use("CONTRACT checked_div_rounded = rounding of the exact quotient at scale n, None iff not representable (obligation: C04 cdr cases)")
-        rr = T.fresh_int("cdr")
-        N, D = nd_ite(dc.t, dp.t, vc.t, vq.t, n.t)
-        st.define((rr,), (rnd_rel(default_mode, N, D, rr),))
+        key = _ckey("cdr", default_mode, dc.t, dp.t, vc.t, vq.t, n.t)
+        if key in st.divcache:
+            rr, ch = st.divcache[key][0], st.divcache[key][1]
+        else:
+            rr = T.fresh_int("cdr")
+            ch = T.fresh_bool("minchoice")
+            st.divcache[key] = (rr, ch, dc.t, vc.t)
+            N, D = nd_ite(dc.t, dp.t, vc.t, vq.t, n.t)
+            st.define((rr,), (rnd_rel(default_mode, N, D, rr),), heavy=True)
         some = EnumV("Option", 1, (IV(rr, "i128"),))
         none = EnumV("Option", 0)
         return _Alts([(z3.And(rr > I128_MIN, rr <= I128_MAX), some),
                       (z3.Or(rr > I128_MAX, rr < I128_MIN), none),
-                      (rr == I128_MIN, some), (rr == I128_MIN, none)])
+                      (z3.And(rr == I128_MIN, ch), some), (z3.And(rr == I128_MIN, z3.Not(ch)), none)])
     return c_cdr
 
 
@@ -217,19 +263,20 @@ def c_normalize(ex, st, fr, callee, args):
         return NotImplemented
     BI._use("CONTRACT normalize: (c', n') with c = c'*10^(n-n'), n' = 0 or c' mod 10 != 0, (0,0) for 0 (obligation: C03 normalize cases)")
     n0 = int(n.t)
-    alts = []
-
-    def mk(j, cj):
-        def fix(s2):
-            ex.write_ref(s2, rc, IV(cj, "i128"))
-            ex.write_ref(s2, rn, IV(n0 - j, "u8"))
-        return fix
     from mir2smt.exec import Fork
     if st.tags.pop(("normalize_done", fr.uid, fr.bb), None):
+        return UNIT
+    nkey = ("norm", c.t.get_id(), n0)
+    if nkey in st.divcache:
+        # the same coefficient was normalised earlier on this path (differential runs): same result
+        cj, nj = st.divcache[nkey][0], st.divcache[nkey][1]
+        ex.write_ref(st, rc, IV(cj, "i128"))
+        ex.write_ref(st, rn, IV(nj, "u8"))
         return UNIT
     forks = []
     zero = T.eq(c.t, 0)
     forks.append((zero, lambda s2: (ex.write_ref(s2, rc, IV(0, "i128")), ex.write_ref(s2, rn, IV(0, "u8")),
+                                    s2.divcache.__setitem__(nkey, (0, 0, c.t)),
                                     s2.tags.__setitem__(("normalize_done", fr.uid, fr.bb), True))))
     for j in range(0, n0 + 1):
         cj = T.fresh_int("nz%d" % j)
@@ -240,6 +287,7 @@ def c_normalize(ex, st, fr, callee, args):
         def fix(s2, j=j, cj=cj):
             ex.write_ref(s2, rc, IV(cj, "i128"))
             ex.write_ref(s2, rn, IV(n0 - j, "u8"))
+            s2.divcache[nkey] = (cj, n0 - j, c.t)
             s2.tags[("normalize_done", fr.uid, fr.bb)] = True
         forks.append((cond, fix))
     raise Fork(forks, check=False)
